@@ -62,7 +62,7 @@ def directed(rng: random.Random, tier: str):
 def run(chk: Check):
     mgr_check.run_property(
         chk, "C14", "Props.C14", THEOREMS,
-        model_profiles={'faults': 260, 'routing': 100},
+        model_profiles={'faults': 260, 'routing': 100, 'nested': 160},
         oracle_flavors={'drops': 320, 'routing': 120},
         checkers=CHECKERS,
         extra_histories=directed,
